@@ -56,6 +56,35 @@ CLAIMS = {
             "DESIGN.md section 9 C01",
             TB + "; io.BytesIO model (short reads, seek/tell); the writer accepted f (length fields fit); plain components",
             "deductive: AST->VC, loop contracts with ghost state over BigConcat ropes, z3; bounded monitor for the text layer"),
+    "C06": ("proof",
+            "contracts on the real pad, Bf3Component.get_raw_data (ciphertext = ENC(k,0,pad16(blob)), length independent of "
+            "the key: the contract C01/C03 assume), set_config's component (tags, encryption mark, block framing), and the "
+            "write/read-back of a file holding an encrypted configuration component of ANY content length (content equal up "
+            "to the declared length, still marked encrypted); secrecy as a syntactic invariant of the output rope (content "
+            "and key occur only under ENC/MAC); fail-closed with an unregistered / raising cipher (nothing written)",
+            "DESIGN.md section 9 C06",
+            TB + "; AES adapter through its C16 contract; secrecy is symbolic (Dolev-Yao style), not computational",
+            "deductive: AST->VC over ropes with callee contracts, z3; bounded monitor on the real plug-in underneath"),
+    "C05": ("proof",
+            "'only if' direction by contract: the real reader on the edited layout (framed directory whose field values - "
+            "addresses, stored/declared lengths, both MAC fields, tags, sentinel - and payload region are all free, any "
+            "combination, any number of entries): returns g ==> sentinel 00, addresses absolute and contiguous, declared <= "
+            "stored, nothing follows the last payload, both MACs equal MAC(k, index/zero IV, covered bytes), content = what "
+            "the fields say; 'if' direction is C01.  Framing edits (entry/description/tag lengths, duplicate tags, directory "
+            "size): bounded structured-edit monitor against the independent validator with recomputed MACs",
+            "DESIGN.md section 9 C05",
+            TB + "; framing of the directory intact in the L1 part; spec/layout.parse_body as oracle of the bounded part",
+            "deductive: AST->VC, loop contracts with ghost state and an arbitrary-index (J0) invariant, z3, sharded path "
+            "exploration; bounded structured edits underneath"),
+    "C04": ("fault_enumeration",
+            "what contracts decide about damaged files is C05's L1 theorem (accept ==> the binary is the layout of the "
+            "returned content, MACs verified) and the BytesReader short-read contract; a replaced byte at a symbolic position "
+            "is out of reach of the VC generator, so the property is checked by fault enumeration on the real reader: every "
+            "proper prefix of binary and text, every byte position x {bit flips, 00, FF, +1}, suffixes, key bit flips, for "
+            "a stated set of authentic files (oracle: error, or exactly the original content)",
+            "DESIGN.md section 9 C04",
+            "bounded: complete only for the listed files; ideal-MAC reasoning is not machine-checked",
+            "bounded fault enumeration with a run-time contract monitor (stand-in); structural part proved under C05"),
 }
 
 NA_DEFAULT = "check not built yet (construction in progress, see DESIGN.md section 14)"
